@@ -195,4 +195,22 @@ example : ∃ s', seek aiffStereo (run aiffStereo (init aiffStereo) [.read 3, .s
   obtain ⟨s', h1, h2, h3⟩ := seek_then_read_stream aiffStereo 4 aiffStereo_wf (init aiffStereo) [.read 3, .seek 5] 1 5 (by decide) (by decide)
   exact ⟨s', h1, h2, by rw [show aiffStereo.ch = 2 from rfl] at h3; rw [h3]; decide⟩
 
+/-- a mono WAV-layout configuration: 4 blocks of 3 frames, counter in whole blocks -/
+def wavMono : Cfg := { ch := 1, spb := 3, unit := 1, blocks := 4, src := fun p => [(10 * p : Int), 10 * p + 1, 10 * p + 2] }
+
+theorem wavMono_wf : wavMono.Wf 4 := ⟨by decide, by decide, by decide, by decide, fun _ => rfl⟩
+
+/-- non-vacuity of `fast_path_unit_one`: block 1 loaded, a seek to frame 5 (block 1) takes the fast path, a seek to frame 7 (block 2) does not -/
+example : seekFast wavMono (atBlock wavMono 1 1) 5 = seek wavMono (atBlock wavMono 1 1) 5 ∧
+    (seekFast wavMono (atBlock wavMono 1 1) 5).map (·.samples) = some [10, 11, 12] ∧
+    seekFast wavMono (atBlock wavMono 1 1) 7 = seek wavMono (atBlock wavMono 1 1) 7 :=
+  ⟨fast_path_unit_one wavMono 4 wavMono_wf rfl 1 1 5 (by decide), by decide, fast_path_unit_one wavMono 4 wavMono_wf rfl 1 1 7 (by decide)⟩
+
+/-- non-vacuity of `read_slice` / `read_partition`: from the lazy state at the end of block 0 (3 of 3 frames consumed), 2 + 5 frames -/
+example : (read wavMono (atBlock wavMono 0 3) (2 * wavMono.ch)).2.1 ++
+      (read wavMono (read wavMono (atBlock wavMono 0 3) (2 * wavMono.ch)).1 (5 * wavMono.ch)).2.1 = [10, 11, 12, 20, 21, 22, 30] := by
+  rw [read_partition wavMono 4 wavMono_wf 0 3 2 5 (by decide) (by decide) (by decide)]
+  obtain ⟨b2, c2, _, _, _, hr⟩ := read_slice wavMono 4 wavMono_wf 0 3 (2 + 5) (by decide) (by decide) (by decide)
+  rw [hr]; show slice wavMono ((0 * wavMono.spb + 3) * wavMono.ch) ((2 + 5) * wavMono.ch) = _; decide
+
 end Sf.ImaSeek
